@@ -73,6 +73,9 @@ pub fn install(mut step: Box<dyn FnMut(Point)>) {
             with_world(|w| {
                 w.cur_q = None;
                 w.cur_bufs.clear();
+                if let Ok(tok) = result {
+                    w.dev(json!({"e":"QAdd","q":queue,"tok":tok}));
+                }
                 match result {
                     Ok(tok) => w.qev(queue, json!({"e":"AddRet","ok":true,"tok":tok})),
                     Err(e) => w.qev(queue, json!({"e":"AddRet","ok":false,"err":format!("{:?}", e)})),
@@ -96,6 +99,7 @@ pub fn install(mut step: Box<dyn FnMut(Point)>) {
                 w.cur_q = Some(queue);
                 w.cur_bufs = inputs.iter().map(|b| (b.as_ptr() as usize, b.len())).chain(outputs.iter().map(|b| (b.as_ptr() as usize, b.len()))).collect();
                 w.cur_outs = outputs.iter().map(|b| (b.as_ptr() as usize, b.len())).collect();
+                w.cur_tok = token;
                 w.qev(queue, json!({"e":"PopCall","tok":token,"outdg":crate::out::fnv64(&all)}));
             });
         }
@@ -110,6 +114,10 @@ pub fn install(mut step: Box<dyn FnMut(Point)>) {
                 }
                 w.cur_q = None;
                 w.cur_bufs.clear();
+                if let Ok(len) = result {
+                    let tok = w.cur_tok;
+                    w.dev(json!({"e":"QPop","q":queue,"tok":tok,"len":len}));
+                }
                 match result {
                     Ok(len) => w.qev(queue, json!({"e":"PopRet","ok":true,"len":len,"outdg":crate::out::fnv64(&all)})),
                     Err(e) => w.qev(queue, json!({"e":"PopRet","ok":false,"err":format!("{:?}", e)})),
